@@ -75,6 +75,9 @@ func containerdState(h *harvestT, fix string) []auxFile {
 			}
 		}
 	}
+	if len(aux) >= 2 {
+		aux = aux[:len(aux)-1] // one container of several is not running: no state file for it
+	}
 	return aux
 }
 
